@@ -13,7 +13,7 @@ R4  values cached from Config are re-established by every writer of Foca.config 
 import re
 
 from .lib import query as q
-from .lib.budget import Budget, buffer_id
+from .lib.budget import Budget, buffer_id, split_sum
 from .lib.effects import Effects
 from .lib.facts import strip_generics
 from .lib.sites import panic_sites
@@ -209,6 +209,54 @@ def audited(site, key=None, extra_ok=True, why=''):
     return bad(site, 'no guard, invariant or audited entry covers it (key %s)' % (key,))
 
 
+def capture_index(v):
+    """k if v reads (through) capture k of the closure it occurs in, by reference: `*env.k`."""
+    if v[0] == 'ref':
+        v = ('load', v[1], 0)
+    if v[0] == 'load' and v[1][0] == 'deref' and v[1][1][0] == 'fieldv' and v[1][1][1] == ('param', 0, 1) \
+            and v[1][1][2].isdigit():
+        return int(v[1][1][2])
+    return None
+
+
+def lifted_need(site, bufv, k, atoms):
+    """A requirement `len(buffer) >= k + atoms` inside a closure whose buffer and atoms are captures held by SHARED
+    reference: judged where the closure value is handed over, on every path of the function that builds it. What holds
+    there holds whenever the closure runs - the shared borrows it carries freeze both places for as long as it lives."""
+    kb = capture_index(bufv)
+    ka = [capture_index(a) for a in atoms]
+    if kb is None or any(x is None for x in ka) or not site.body.parent:
+        return False
+    ps = site.f.by_name.get(site.body.parent, [])
+    if len(ps) != 1:
+        return False
+    seen = 0
+    is_me = lambda x: x[0] == 'agg' and x[1] == 'closure' and x[2] == site.body.nname
+    for p in site.ctx.paths(site.f, ps[0], 'none'):
+        if p.ret is not None and q.mentions(p.ret, is_me):
+            return False        # escapes: may run when the borrows' owner has moved on
+        for i, e in enumerate(p.events):
+            if e['kind'] == 'write' and q.mentions(e['value'], is_me):
+                return False
+            if e['kind'] != 'call':
+                continue
+            for j, a in enumerate(e['args']):
+                if not is_me(a):
+                    if q.mentions(a, is_me):
+                        return False
+                    continue
+                caps, vals = a[5], e['argvals'][j][5]
+                if max([kb] + ka) >= len(caps):
+                    return False
+                if any(caps[x][0] != 'ref' or caps[x][2] for x in [kb] + ka):
+                    return False    # by value or by unique borrow: not frozen / not the same object
+                seen += 1
+                okc, _ = Budget(p, buffer_id(caps[kb])).covers(i, k, [vals[x] for x in ka])
+                if not okc and not (k == 0 and all(q.is_const(vals[x], 0) for x in ka)):
+                    return False
+    return seen > 0
+
+
 def need_budget(site, need_of):
     """need_of(event) -> (buffer value, const, atoms). All occurrences on all paths must be covered."""
     occ = site.occurrences()
@@ -217,7 +265,11 @@ def need_budget(site, need_of):
     for p, i, e in occ:
         bufv, k, atoms = need_of(e)
         bid = buffer_id(bufv)
+        if k == 0 and not atoms:
+            continue        # nothing is required of the buffer here (`v[0..]`, `v[..0]`)
         okc, fact = Budget(p, bid).covers(i, k, atoms)
+        if not okc and site.body.kind == 'Closure':
+            okc = lifted_need(site, bufv, k, atoms)
         if not okc:
             return bad(site, 'on some path the buffer is not known to hold %s%s more bytes/elements at this point'
                        % (k, (' + ' + ' + '.join(show(a, site.body) for a in atoms)) if atoms else ''),
@@ -329,10 +381,13 @@ def h_index(site):
             return h_tally_patch(site)
         return audited(site, key)
     # slice[..end]
+    # slice[..end] / slice[start..]: in bounds iff the buffer holds at least `end` / `start` elements
     def need(e):
         rng = e['args'][1]
-        if rng[0] == 'agg' and rng[2].endswith('RangeTo') and 'end' in rng[4]:
-            return (e['args'][0], 0, [q.agg_field(rng, 'end')])
+        for ty, fld in (('RangeTo', 'end'), ('RangeFrom', 'start')):
+            if rng[0] == 'agg' and rng[2].endswith('::' + ty) and fld in rng[4]:
+                c, atoms = split_sum(q.agg_field(rng, fld))
+                return (e['args'][0], c, atoms)
         return (e['args'][0], 10 ** 18, [])
     return need_budget(site, need)
 
